@@ -100,13 +100,17 @@ _tpl = {"ttl_digit": "last TTL digit any ASCII byte", "ttl_edge": "TTL 429496729
         "txt_escape": "TXT escape \\25X: accepted iff X <= '5'", "ds_hex": "second hex digit of a DS digest: accepted iff hex digit (odd length otherwise)",
         "owner_char": "second character of the owner name", "soa_counter": "last SOA counter digit",
         "txt_escape_first": "TXT escape \\\\X55: accepted iff X <= '2'"}
+_tpl["ns_lastchar"] = "last character of an NS target: accepted iff letter, digit, hyphen, space or tab"
 for k, v in _tpl.items():
-    add("synth_tpl_" + k, ["C13"], tier="quick", timeout=1200, est=200, mem_gb=24, path="registry::h_c13::proofs::", funcs=_f13p,
+    _q = k in ("octet_edge", "ns_lastchar")
+    add("synth_tpl_" + k, ["C13"], tier="quick" if _q else "thorough", timeout=1200 if _q else 7200, est=200 if _q else 3000, mem_gb=24 if _q else 48,
+        path="registry::h_c13::proofs::" if _q else "registry::h_c13_t::proofs::", funcs=_f13p,
         bound="RR::from_string on a concrete record text with one symbolic byte X (all 128 ASCII values): " + v + "; accepted <=> in grammar, wire form == RFC 1035 encoding")
-add("synth_arbitrary_3", ["C13"], tier="quick", timeout=1200, est=300, mem_gb=24, path="registry::h_c13::proofs::", funcs=_f13p,
+add("synth_arbitrary_3", ["C13"], tier="thorough", timeout=7200, est=3000, mem_gb=48, path="registry::h_c13_t::proofs::", funcs=_f13p,
     bound="RR::from_string on every ASCII string of length <= 3: no panic, error")
 for n, what in (("a_an", "A into answer"), ("mx_ns", "MX into authority"), ("txt_ar", "TXT (with a decimal escape) into additional")):
-    add("synth_insert_" + n, ["C13"], tier="quick", timeout=1500, est=300, mem_gb=24, fs=300, path="registry::h_c13::proofs::", funcs=_f13p + ["ParsedPacket::insert_rr_from_string", "ParsedPacket::insert_rr", "DNSSector::parse"],
+    _q = n != "txt_ar"
+    add("synth_insert_" + n, ["C13"], tier="quick" if _q else "thorough", timeout=1500 if _q else 7200, est=300, mem_gb=24 if _q else 48, fs=300, path="registry::h_c13::proofs::" if _q else "registry::h_c13_t::proofs::", funcs=_f13p + ["ParsedPacket::insert_rr_from_string", "ParsedPacket::insert_rr", "DNSSector::parse"],
         bound="insert_rr_from_string(valid concrete text: %s) on skeleton r_a_aaaa x all payload: the parser accepts the result" % what)
 for n in ("4", "5"):
     add("synth_arbitrary_" + n, ["C13"], tier="thorough", timeout=5400, est=2000, mem_gb=32, path="registry::h_c13_t::proofs::", funcs=_f13p,
@@ -117,12 +121,12 @@ for n in ("0", "1", "510", "511"):
 for n, what in (("aaaa_an", "AAAA"), ("ns_ns", "NS"), ("cname_an", "CNAME"), ("ptr_ar", "PTR"), ("soa_ns", "SOA"), ("ds_an", "DS")):
     add("synth_insert_" + n, ["C13"], tier="thorough", timeout=3000, est=400, mem_gb=24, fs=300, path="registry::h_c13_t::proofs::", funcs=_f13p + ["ParsedPacket::insert_rr_from_string"],
         bound="insert_rr_from_string(valid concrete %s text) on skeleton r_a_aaaa x all payload: the parser accepts the result" % what)
-OUTSIDE["C13"] = "record texts with more than one symbolic byte; strings longer than 3 (quick) / 5 (thorough) arbitrary bytes; names and TXT bodies beyond the templates; 62-byte labels and maximal names in text form (the name limits are decided on raw_name_from_str under C14)"
+OUTSIDE["C13"] = "MEASURED LIMIT: RR::from_string (chomp combinators) is tractable only when the symbolic byte is the last byte of the text or the text is concrete; templates with an inner symbolic byte, TXT bodies and arbitrary strings run in the thorough tier with 2 h caps and are reported as undecided when they exceed them (the builders, which produce the wire form, are decided for all field values); record texts with more than one symbolic byte; strings longer than 3 (quick) / 5 (thorough) arbitrary bytes; names and TXT bodies beyond the templates; 62-byte labels and maximal names in text form (the name limits are decided on raw_name_from_str under C14)"
 
 # ---------------------------------------------------------------- C14
 _f14 = ["synth::gen::raw_name_from_str", "synth::gen::copy_raw_name_from_str"]
-for n, t, est in (("text_4_nozone", "quick", 30), ("text_4_zone", "quick", 40), ("text_5_nozone", "quick", 120)):
-    add(n, ["C14"], tier=t, timeout=900, est=est, path="registry::h_c14::proofs::", funcs=_f14,
+for n, t, est in (("text_3_nozone", "quick", 30), ("text_3_zone", "quick", 40), ("text_4_nozone", "quick", 300)):
+    add(n, ["C14"], tier=t, timeout=1500, est=est, mem_gb=40, path="registry::h_c14::proofs::", funcs=_f14,
         bound="raw_name_from_str on every byte string of length <= %s (all bytes and the length symbolic), %s" % (n.split("_")[1], "zone = \\x02zn\\x00" if "_zone" in n else "no zone"))
 for n in ("text_b_61_100", "text_b_62_100", "text_b_63_100", "text_b_64_100", "text_b_10_252", "text_b_10_253", "text_b_10_254", "text_b_10_255", "text_b_10_256"):
     add(n, ["C14"], tier="quick", timeout=900, est=60, path="registry::h_c14::proofs::", funcs=_f14,
@@ -130,13 +134,13 @@ for n in ("text_b_61_100", "text_b_62_100", "text_b_63_100", "text_b_64_100", "t
 for n in ("text_readback_zone", "text_readback_dot"):
     add(n, ["C14"], tier="quick", timeout=900, est=200, path="registry::h_c14::proofs::", funcs=_f14 + ["TypedIterable::set_raw_name", "TypedIterable::name"], fs=300,
         bound="set_raw_name(raw_name_from_str('Ab.cD' %s)) on answer 0 of skeleton r_a_aaaa then name(): all payload symbolic, text concrete" % ("+ zone" if "zone" in n else "with trailing dot"))
-for n, est in (("text_6_nozone", 400), ("text_6_zone", 500), ("text_7_nozone", 1500)):
-    add(n, ["C14"], tier="thorough", timeout=3600, est=est, mem_gb=24, path="registry::h_c14_t::proofs::", funcs=_f14,
+for n, est in (("text_4_zone", 400), ("text_5_nozone", 600), ("text_6_nozone", 900), ("text_6_zone", 1000), ("text_7_nozone", 2500)):
+    add(n, ["C14"], tier="thorough", timeout=5400, est=est, mem_gb=48, path="registry::h_c14_t::proofs::", funcs=_f14,
         bound="raw_name_from_str on every byte string of length <= %s, %s" % (n.split("_")[1], "zone" if "_zone" in n else "no zone"))
 for n in ("text_b_10_250", "text_b_10_251", "text_b_62_253", "text_b_63_255"):
     add(n, ["C14"], tier="thorough", timeout=900, est=60, path="registry::h_c14_t::proofs::", funcs=_f14,
         bound="boundary lengths: first label of %s bytes, total wire length %s" % tuple(n.split("_")[2:4]))
-OUTSIDE["C14"] = "texts longer than 5 (quick) / 7 (thorough) bytes with arbitrary content; boundary texts beyond the listed label/total lengths; read-back with symbolic text (raw_name_to_str branches per byte); zones other than the fixed one"
+OUTSIDE["C14"] = "texts longer than 4 (quick) / 7 (thorough) bytes with arbitrary content; boundary texts beyond the listed label/total lengths; read-back with symbolic text (raw_name_to_str branches per byte); zones other than the fixed one"
 
 # ---------------------------------------------------------------- generated skeleton families
 import json as _json, os as _os
